@@ -29,6 +29,9 @@ type RouteOpts struct {
 	SameMethodNames bool
 	// TrailingSlash sometimes ends an RPC path with "/" (or makes it exactly "/").
 	TrailingSlash bool
+	// PathRepeatsBase sometimes makes the RPC path BEGIN with the text of the service base path
+	// (as a whole segment or as a mere string prefix: base "/api", path "/api-keys/…").
+	PathRepeatsBase bool
 	// QueryNameClash sometimes gives a query parameter the wire name of a path variable of the
 	// same RPC that is bound to a DIFFERENT field (valid: no field is bound twice).
 	QueryNameClash bool
@@ -148,6 +151,19 @@ func GenRouteFile(r *R, idx int, o RouteOpts) *ir.Request {
 				path = "/" + strings.Join(segs, "/")
 				if !o.SafeOnly && r.P(1, 8) {
 					path = strings.TrimPrefix(path, "/") // no leading slash
+				}
+				if o.PathRepeatsBase && svc.BasePath != "" && r.P(1, 4) {
+					b := "/" + strings.Trim(svc.BasePath, "/")
+					if b != "/" {
+						switch r.Intn(3) {
+						case 0:
+							path = b + path // whole segment(s) repeated
+						case 1:
+							path = b + "-keys" + path // string prefix only
+						default:
+							path = b + "s" + path
+						}
+					}
 				}
 				if o.TrailingSlash && r.P(1, 4) {
 					if nvars == 0 && r.P(1, 3) {
